@@ -7,6 +7,7 @@ package vlib
 
 import (
 	"bufio"
+	"encoding/binary"
 	"encoding/json"
 	"flag"
 	"fmt"
@@ -29,6 +30,7 @@ type Out struct {
 	Transitions int64             `json:"transitions"`
 	States      int64             `json:"states"`
 	StateHashes string            `json:"state_hashes_file,omitempty"`
+	ClassHashes string            `json:"class_hashes_file,omitempty"`
 	Classes     []string          `json:"classes"`
 	NClassesD   int64             `json:"nclasses_disjoint"`
 	Outcomes    map[string]int64  `json:"outcomes"`
@@ -43,6 +45,8 @@ type Out struct {
 	classes     map[string]struct{}
 	viol        map[string]*Violation
 	classesD    map[uint64]struct{}
+	stateSet    map[uint64]struct{}
+	classesU    map[uint64]struct{}
 	sampleSeen  int64
 	sampleNext  int64
 }
@@ -67,7 +71,7 @@ func Init() *Out {
 	flag.Parse()
 	start = time.Now()
 	R = &Out{Property: *Prop, Outcomes: map[string]int64{}, Bounds: map[string]any{}, Counters: map[string]int64{},
-		classes: map[string]struct{}{}, classesD: map[uint64]struct{}{}, viol: map[string]*Violation{}, Exhaustive: true}
+		classes: map[string]struct{}{}, classesD: map[uint64]struct{}{}, stateSet: map[uint64]struct{}{}, classesU: map[uint64]struct{}{}, viol: map[string]*Violation{}, Exhaustive: true}
 	if *KnownFile != "" {
 		loadKnown(*KnownFile, *Prop)
 	}
@@ -139,6 +143,32 @@ func (o *Out) ClassD(k string) {
 	}
 	o.classesD[h] = struct{}{}
 }
+
+// ClassU records a distinct non-trivial case by key; only a hash is kept and the driver takes the
+// union over all shards (use when the same case can be met by several shards).
+func (o *Out) ClassU(k string) {
+	h := uint64(14695981039346656037)
+	for i := 0; i < len(k); i++ {
+		h ^= uint64(k[i])
+		h *= 1099511628211
+	}
+	o.classesU[h] = struct{}{}
+}
+
+// State records a visited (abstract) state by key; the driver unions the hashes of all shards.
+func (o *Out) State(k string) {
+	h := uint64(14695981039346656037)
+	for i := 0; i < len(k); i++ {
+		h ^= uint64(k[i])
+		h *= 1099511628211
+	}
+	o.stateSet[h] = struct{}{}
+}
+
+// StateHash records an already hashed state.
+func (o *Out) StateHash(h uint64) { o.stateSet[h] = struct{}{} }
+func (o *Out) NStates() int       { return len(o.stateSet) }
+
 func (o *Out) Outcome(k string)   { o.Outcomes[k]++ }
 func (o *Out) Count(k string)     { o.Counters[k]++ }
 func (o *Out) CountN(k string, n int64) { o.Counters[k] += n }
@@ -221,6 +251,32 @@ func (o *Out) Finish() {
 		o.Violations = append(o.Violations, v)
 	}
 	sort.Slice(o.Violations, func(i, j int) bool { return o.Violations[i].Sig < o.Violations[j].Sig })
+	if len(o.stateSet) > 0 && *OutPath != "" {
+		buf := make([]byte, 0, 8*len(o.stateSet))
+		for h := range o.stateSet {
+			buf = binary.LittleEndian.AppendUint64(buf, h)
+		}
+		o.StateHashes = *OutPath + ".states"
+		if err := os.WriteFile(o.StateHashes, buf, 0o644); err != nil {
+			Fatal("write states: %v", err)
+		}
+	} else if len(o.stateSet) > 0 {
+		o.States += int64(len(o.stateSet))
+	}
+	if len(o.classesU) > 0 {
+		if *OutPath != "" {
+			buf := make([]byte, 0, 8*len(o.classesU))
+			for h := range o.classesU {
+				buf = binary.LittleEndian.AppendUint64(buf, h)
+			}
+			o.ClassHashes = *OutPath + ".classes"
+			if err := os.WriteFile(o.ClassHashes, buf, 0o644); err != nil {
+				Fatal("write classes: %v", err)
+			}
+		} else {
+			o.NClassesD += int64(len(o.classesU))
+		}
+	}
 	o.WallS = time.Since(start).Seconds()
 	b, err := json.Marshal(o)
 	if err != nil {
